@@ -227,6 +227,34 @@ def invalidate_unconditional(src, fname):
     return bool(re.fullmatch(r"let mut (\w+) = \w+\.client\.lock\(\)\.await; \*\1 = None;", flat))
 
 
+def ensure_connected_form(src, fname):
+    """`ensure_connected`: under the slot's lock, a cached client is returned as it is (dead or not);
+    otherwise one connect, whose client is stored in the slot and returned. This is what the model's
+    `Cache` transitions of an attempt stand on. Anything else (a liveness test that drops the client, a
+    connect outside the lock, a client that is not stored, a retry inside) is reported as false."""
+    flat = " ".join(fn_body(src, "ensure_connected").split())
+    pats = [
+        # blocking
+        r"let mut (\w+) = lock_node_client\(&\w+\.client\); if let Some\((\w+)\) = \1\.as_ref\(\) \{ return Ok\(\2\.clone\(\)\); \} "
+        r"let (\w+) = Client::connect\(\w+\.config\.address\(\)\)\?; let (\w+) = \3\.clone\(\); \*\1 = Some\(\3\); Ok\(\4\)",
+        # async
+        r"let mut (\w+) = \w+\.client\.lock\(\)\.await; if let Some\((\w+)\) = \1\.as_ref\(\) \{ return Ok\(\2\.clone\(\)\); \} "
+        r"let (\w+) = \w+\.config\.host\.clone\(\); let (\w+) = AsyncClient::connect\(\(\3\.as_str\(\), \w+\.config\.port\)\)\.await\?; "
+        r"let (\w+) = \4\.clone\(\); \*\1 = Some\(\4\); Ok\(\5\)",
+    ]
+    return any(re.fullmatch(p, flat) for p in pats)
+
+
+def results_keyed_by_node(src, fname):
+    """`broadcast_json`: every worker returns `(result.node.clone(), result)` — the name of the node the
+    call was made to — and every joined worker's pair is inserted under that name; nothing renames,
+    filters or re-orders the pairs in between."""
+    flat = " ".join(fn_body(src, "broadcast_json").split())
+    if len(re.findall(r"\(result\.node\.clone\(\), result\)", flat)) != 1: return False
+    m = re.search(r"let mut (\w+) = HashMap::new\(\); for (\w+) in (\w+) \{ if let Ok\(\((\w+), (\w+)\)\) = \2\.(?:join\(\)|await) \{ \1\.insert\(\4, \5\); \} \} \1 ?$", flat)
+    return bool(m)
+
+
 def extract():
     facts = {}
     facts["deadKinds"] = dead_kinds("src/client.rs")
@@ -248,6 +276,8 @@ def extract():
         facts[nm("filter")] = filter_form(src, path)
         facts[nm("fanOutOverTargets")] = fan_out(src, path)
         facts[nm("invalidateUnconditional")] = invalidate_unconditional(src, path)
+        facts[nm("ensureConnectedCaches")] = ensure_connected_form(src, path)
+        facts[nm("resultsKeyedByNode")] = results_keyed_by_node(src, path)
         for gk, gv in guards(src, test_mod_cut(strip(read("src/fleet.rs"))), path).items():
             facts[nm(gk)] = gv
         facts.setdefault("where", {})[path] = {"is_retryable_error": line_of(raw, "fn is_retryable_error"),
@@ -285,6 +315,10 @@ def render(f):
          f"def asyncFanOutOverTargets : Bool := {b(f['asyncFanOutOverTargets'])}",
          f"def invalidateUnconditional : Bool := {b(f['invalidateUnconditional'])}",
          f"def asyncInvalidateUnconditional : Bool := {b(f['asyncInvalidateUnconditional'])}",
+         f"def ensureConnectedCaches : Bool := {b(f['ensureConnectedCaches'])}",
+         f"def asyncEnsureConnectedCaches : Bool := {b(f['asyncEnsureConnectedCaches'])}",
+         f"def resultsKeyedByNode : Bool := {b(f['resultsKeyedByNode'])}",
+         f"def asyncResultsKeyedByNode : Bool := {b(f['asyncResultsKeyedByNode'])}",
          f"def maxAttemptsValidated : Bool := {b(f['maxAttemptsValidated'])}",
          f"def asyncMaxAttemptsValidated : Bool := {b(f['asyncMaxAttemptsValidated'])}",
          f"def namesDistinctAtConstruction : Bool := {b(f['namesDistinctAtConstruction'])}",
